@@ -17,6 +17,7 @@ either produced a message or cost exactly that connection; (4) containment: the 
 peers' next call completes within the drain bound and the bus no longer knows the dropped
 connection.
 """
+import os
 import struct
 import sys
 
@@ -41,7 +42,7 @@ PROBES = ['zero-size-array-element', 'deep-nesting', 'unterminated-container', '
           'lying-body-length', 'truncated-then-closed', 'bitflip-survived-as-message',
           'exception-closed-only-that-connection', 'other-peer-call-completed-after-fault',
           'client-pending-calls-failed-on-drop', 'hostile-variant-signature', 'unknown-message-type',
-          'wrong-header-field-type', 'budget-margin-over-10x', 'lying-string-length', 'lying-unix-fds-count', 'large-header-body-dribbled']
+          'wrong-header-field-type', 'budget-margin-over-10x', 'lying-string-length', 'lying-unix-fds-count', 'large-header-body-dribbled', 'siege-of-hostile-peers']
 COMPONENTS = {
     'real': ['txdbus.message.parseMessage (counting pass-through wrapper)', 'txdbus.marshal.unmarshal*',
              'txdbus.protocol framing', 'txdbus.bus.Bus / BusProtocol', 'txdbus.client.DBusClientConnection'],
@@ -71,6 +72,9 @@ HOSTILE_SIGS = [
 ]
 
 
+HARNESS_DIR = os.path.dirname(os.path.dirname(os.path.abspath(__file__))) + os.sep
+
+
 class BudgetExceeded(BaseException):
     pass
 
@@ -81,11 +85,13 @@ class StepCounter:
         self.limit = 0
         self.on = False
         self.max_ratio = 0.0
+        self.skip = None
 
-    def start(self, limit):
+    def start(self, limit, skip_harness=False):
         mon = sys.monitoring
         self.n = 0
         self.limit = limit
+        self.skip = HARNESS_DIR if skip_harness else None
         try:
             mon.use_tool_id(TOOL, 'c05')
         except ValueError:
@@ -95,6 +101,8 @@ class StepCounter:
         self.on = True
 
     def _cb(self, code, line):
+        if self.skip is not None and code.co_filename.startswith(self.skip):
+            return
         self.n += 1
         if self.n > self.limit:
             # disarm before raising, otherwise the callback fires again inside handlers
@@ -338,6 +346,60 @@ def run_bus(ctx, counter):
     ds, sim = ctx.ds, ctx.sim
     rig = BusRig(ctx, creds=ds.flag(0.5), prop='C05')
     good = [rig.add_peer() for _ in range(1 + ds.choose(2))]
+    if ds.flag(0.03):
+        # a siege: the process has already refused dozens of hostile peers (each sent one message
+        # with a long malformed signature and lost its connection) before this run's traffic
+        sim.probe('siege-of-hostile-peers')
+        nsiege = 40 + ds.choose(80)
+        lie = struct.pack('<I', 0x0ffffff8) + b'\0' * 12
+        arsenal = [('(' * 250, b'\0' * 8), ('a' * 255, b'\0' * 8), ('a' * 120 + '(' * 130, b'\0' * 8),
+                   ('((i))' * 49 + '(', b'\0' * 8), ('a{sv}' * 50 + '{', b'\0' * 8),
+                   ('(' * 128 + ')' * 120, b'\0' * 8), ('ai' * 127 + 'a', b'\0' * 8),
+                   ('ai', lie), ('a()', lie), ('as', lie), ('a{sv}', lie),
+                   # lengths that end inside an element / elements that occupy nothing
+                   ('ai', struct.pack('<I', 6) + b'\0' * 8), ('a()', struct.pack('<I', 8) + b'\0' * 12),
+                   ('a(ii)', struct.pack('<I', 12) + b'\0' * 20), ('ax', struct.pack('<I', 9) + b'\0' * 20)]
+        weapons = [arsenal[ds.choose(len(arsenal))] for _ in range(1 + ds.choose(2))]
+        first_cost = {}
+        first_depth = {}
+        for k in range(nsiege):
+            h = rig.add_peer()
+            sig, body = weapons[k % len(weapons)]
+            f = {rc.F_PATH: '/h', rc.F_MEMBER: 'M', rc.F_INTERFACE: 'org.sim.H',
+                 rc.F_DESTINATION: 'org.freedesktop.DBus'}
+            h['proto'].transport.write(raw_message(1, 77, f, sig, body))
+            # refusing the same bytes costs the same the hundredth time as the first
+            nexc = len(sim.exceptions)
+            counter.start(10 ** 9, skip_harness=True)
+            rig.calm()
+            cost = counter.stop()
+            # ... and the exception it ends with does not drag the earlier refusals along
+            for where, whatx, e in sim.exceptions[nexc:]:
+                depth, tb = 0, e.__traceback__
+                while tb is not None:
+                    depth, tb = depth + 1, tb.tb_next
+                if sig not in first_depth:
+                    first_depth[sig] = depth
+                elif depth > first_depth[sig] + 3:
+                    raise Violation('C05/allocation', 'history-dependent traceback',
+                                    'the exception refusing a hostile message (signature %r...) refers to '
+                                    '%d stack entries for the %dth peer, %d for the first: earlier refusals '
+                                    'are kept alive' % (sig[:12], depth, k + 1, first_depth[sig]))
+            if sig not in first_cost:
+                first_cost[sig] = cost
+            elif cost > first_cost[sig] + 400:
+                raise Violation('C05/step-budget', 'history-dependent cost',
+                                'refusing the same hostile message (signature %r...) cost %d interpreter '
+                                'steps the first time and %d steps for the %dth peer'
+                                % (sig[:12], first_cost[sig], cost, k + 1))
+            if h['conn'].b.state == net.OPEN:
+                h['proto'].transport.loseConnection()
+                rig.calm()
+        for where, whatx, e in sim.exceptions:
+            if whatx != 'dataReceived':
+                raise Violation('C05/containment', exc_key(e), 'exception outside the receive path '
+                                'during the siege (%s of %s): %r' % (whatx, where, e))
+        del sim.exceptions[:]
     bad = rig.add_peer()
     bad_unique = bad['proto'].unique
     pipe = bad['conn'].pipes[0]
